@@ -67,6 +67,7 @@ def run_case(rs, ctx):
                       binarizer=binz, with_probs=bool(rs.integers(4) == 0))
     nf = int(gen.pick(rs, [1, 2, 3]))
     sh = gen.Shadow(cfg, nf)
+    sh.vary_nf = True
     hist = []
     if point != "before_fit":
         hist += gen.gen_ops(rs, cfg, sh, 1, ["fit"], train_rows=(5, 16))
